@@ -29,6 +29,8 @@ def check(ctx):
     for m_ in ("select", "unselect"):
         _gen.argument_as_given(ctx, repo.fn(f"dataiter.data_frame.DataFrame.{m_}"), repo.fn(f"dataiter.data_frame.DataFrame.{m_}").vararg, [()],
                                "select / unselect honour the requested names -- an empty request included")
+        _gen.names_as_given(ctx, repo.fn(f"dataiter.data_frame.DataFrame.{m_}"), repo.fn(f"dataiter.data_frame.DataFrame.{m_}").vararg,
+                            "select / unselect change only which columns exist, by the names given")
     for r, t in (("STO-6", "colnames assignment is two-phase"), ("ORD-2", "rbind: all inputs in order, ordered union of names, NA parts"),
                  ("NAME", "select / rename / unselect: name-value provenance"), ("DUP", "cbind / update / modify duplicate handling"),
                  ("WHOLE", "untouched columns are yielded whole")):
